@@ -21,6 +21,7 @@ Violation keys (seed independent cause classes):
   exit1-no-diagnostic / accept-no-output
   depth-limit-not-enforced|<generator>
 """
+import json
 import math
 import os
 import re
@@ -527,7 +528,7 @@ def make_input(cfg, case):
         builder, nesting, valid = ms.DEPTH_GENERATORS[g]
         return "depth:" + g, builder(d), bool(nesting and d > limit), g
     if kind == "file":
-        keys = case[2] if len(case) > 2 else ()
+        keys = tuple(case[2] if len(case) > 2 else ()) + tuple(case[3] if len(case) > 3 else ())
         key = ([k for k in keys if k.startswith("depth-limit-not-enforced|")] + [""])[0]
         want = key.startswith("depth-limit-not-enforced|")
         with open(case[1], "rb") as f:
@@ -690,8 +691,19 @@ def run(ctx):
             w = e.get("witness")
             if w and os.path.exists(os.path.join(core_verif(), w)):
                 wit.setdefault(os.path.join(core_verif(), w), []).append(key)
-        for w in sorted(wit):
-            cases.append(("file", w, tuple(wit[w])))
+        # witnesses of fixed findings stay in the regression corpus and must pass now (their key only tells whether
+        # the input has to be refused because of its nesting depth)
+        fixed_wit = {}
+        try:
+            with open(os.path.join(core_verif(), "findings", "C09", "known.json")) as f:
+                for line in json.load(f).get("fixed", []):
+                    m = re.search(r"\(key (.+), witness (findings/C09/[^)\s]+)\)\s*$", line)
+                    if m and os.path.exists(os.path.join(core_verif(), m.group(2))):
+                        fixed_wit.setdefault(os.path.join(core_verif(), m.group(2)), []).append(m.group(1))
+        except (OSError, ValueError):
+            pass
+        for w in sorted(set(wit) | set(fixed_wit)):
+            cases.append(("file", w, tuple(wit.get(w, [])), tuple(fixed_wit.get(w, []))))
         n_wit = len(cases)
         cases += _plan(ctx, seeds, limit)
         # big inputs first (better load balance), then chunks
@@ -766,7 +778,7 @@ def run(ctx):
                 samples.append({"mutator": mut, "case": list(rec["case"][:3]), "bytes": rec["size"], "outcome": oc, "first_diagnostic": rec["diag"]})
         ctx.require(need_gdb_missing == 0, "gdb is needed to classify %d crash/no-progress events and is not installed" % need_gdb_missing)
         for w, (keys, evs) in sorted(wit_seen.items()):
-            if not set(keys) & set(evs):
+            if keys and not set(keys) & set(evs):
                 ctx.note("witness %s of open finding(s) %s no longer fails (observed: %s) - the entry can move to 'fixed'"
                          % (os.path.basename(w), list(keys), evs or "clean"))
 
